@@ -107,7 +107,12 @@ fn common(scn: &Scenario, log: &RunLog, res: &mut ScenarioResult, prop: &str) {
     let bound = (2 * rt_max + 8) * i_max;
     let mut last = 0u64;
     let mut last_class = "boot";
-    for e in log.em.iter().map(|e| (e.t_ns, e.class.name())).chain(std::iter::once((log.end_ns, "end"))) {
+    // an Announce that reaches the daemon legitimately re-arms an announce receipt timer (a Listening
+    // port stays silent for another timeout): the clock of the hang test restarts there as well
+    let mut marks: Vec<(u64, &'static str, bool)> = log.em.iter().map(|e| (e.t_ns, e.class.name(), true)).collect();
+    marks.extend(log.inj.iter().filter(|i| !i.dropped && i.class.name() == "Announce").map(|i| (i.arrival_ns, "announce_received", false)));
+    marks.sort_by_key(|m| m.0);
+    for e in marks.iter().map(|m| (m.0, m.1)).chain(std::iter::once((log.end_ns, "end"))) {
         if e.0 > last + bound && log.panics.is_empty() {
             violate(
                 res,
